@@ -1,0 +1,8 @@
+//go:build !verif
+// +build !verif
+
+package bundler
+
+import "github.com/evanw/esbuild/internal/fs"
+
+func verifLinkKey(fs fs.FS, i int) string { return "" }
